@@ -43,6 +43,16 @@ def engine(run, group_contract=False):
 
 
 def check_paths(run, E, res, tag, inst, unsupported, supported, honoured, rp, prefix="C14"):
+    # rp(model, seed, accept): the native oracle restricted to the kind of failure of the refuted clause
+    import inspect
+    if "accept" in inspect.signature(rp).parameters:
+        rp_raise = lambda m, s: rp(m, s, accept=RAISES)
+        rp_rej = lambda m, s: rp(m, s, accept=REJECTS_SUPPORTED)
+        rp_acc = lambda m, s: rp(m, s, accept=ACCEPTS_UNSUPPORTED)
+        rp_hon = lambda m, s: rp(m, s, accept=NOT_HONOURED)
+        rp_r1 = lambda m, s: rp(m, s, accept=RANK1)
+    else:
+        rp_raise = rp_rej = rp_acc = rp_hon = rp_r1 = rp
     """unsupported / supported: z3 formulas over the configuration; honoured(value) -> list of (name, formula)."""
     if not run.expect_paths(res, f"{prefix}/{tag}", inst):
         return
@@ -52,18 +62,18 @@ def check_paths(run, E, res, tag, inst, unsupported, supported, honoured, rp, pr
         if r.outcome == "raise":
             t = r.value.tname
             run.add(f"{prefix}/only-ValueError[{tag}]/path{pi}:{t}", r.hyps, z3.BoolVal(t == "ValueError"), "property", inst,
-                    {"raises": repr(r.value)[:200]}, replay=rp)
+                    {"raises": repr(r.value)[:200]}, replay=rp_raise)
             if t == "ValueError":
                 run.add(f"{prefix}/supported-config-not-rejected[{tag}]/path{pi}", r.hyps, z3.Not(supported), "property", inst,
-                        {"raises": repr(r.value)[:200]}, replay=rp)
+                        {"raises": repr(r.value)[:200]}, replay=rp_rej)
         else:
-            run.add(f"{prefix}/unsupported-config-rejected[{tag}]/path{pi}", r.hyps, z3.Not(unsupported), "property", inst, replay=rp)
+            run.add(f"{prefix}/unsupported-config-rejected[{tag}]/path{pi}", r.hyps, z3.Not(unsupported), "property", inst, replay=rp_acc)
             for nme, f in honoured(r.value):
-                run.add(f"{prefix}/honoured:{nme}[{tag}]/path{pi}", r.hyps + [z3.Not(unsupported)], f, "property", inst, replay=rp)
+                run.add(f"{prefix}/honoured:{nme}[{tag}]/path{pi}", r.hyps + [z3.Not(unsupported)], f, "property", inst, replay=rp_r1 if nme.startswith("rank1-inv") else rp_hon)
         # PyTorch preconditions met on this path (a failure would be a RuntimeError): property level
         for o in r.obligations:
             if o.kind in ("torch-pre", "callee-pre", "assert"):
-                run.add(f"{prefix}/no-runtime-error[{tag}]/path{pi}/{o.name}@{o.loc}", o.hyps, o.goal, "property", inst, replay=rp)
+                run.add(f"{prefix}/no-runtime-error[{tag}]/path{pi}/{o.name}@{o.loc}", o.hyps, o.goal, "property", inst, replay=rp_raise)
             elif o.kind == "side" and "div-nonzero" not in o.name:
                 run.add(f"{prefix}/exec[{tag}]/path{pi}/{o.name}@{o.loc}", o.hyps, o.goal, "side", inst)
 
@@ -159,7 +169,7 @@ def prog(t, qtype, axis, group_size, optimizer):
                                     out.append(("rank1-inv:one-scale-per-axis-index", lib.shape_eq(sc.shape, [ds[0]]) if len(sc.shape) == 1 else z3.BoolVal(False)))
                             return out
 
-                        rp = lambda m, s, i=dict(inst): replay_qw(m, s, i)
+                        rp = lambda m, s, accept=(lambda w: True), i=dict(inst): replay_qw(m, s, i, accept)
                         check_paths(run, E, res, tag, inst, unsup, sup, honoured, rp)
 
 
@@ -227,7 +237,7 @@ def prog(base, qtype, axis, scale):
                             return [("qtype", z3.BoolVal(q.fields.get("_qtype") is qt)), ("axis", z3.BoolVal(q.fields.get("_axis") == want_axis)),
                                     ("shape", lib.shape_eq(list(q.fields["_w_size"]), ds))] + [("inv:" + a, b) for a, b in inv.inv_qbytes(q)]
 
-                        rp = lambda m, s, i=dict(inst): replay_sym(m, s, i)
+                        rp = lambda m, s, accept=(lambda w: True), i=dict(inst): replay_sym(m, s, i, accept)
                         check_paths(run, E, res, tag, inst, unsup, sup, honoured, rp)
 
 
@@ -293,7 +303,7 @@ def prog(base, qtype, axis, group_size, scale, zeropoint):
                                 ("group_size", (zi(gs) == G) if (grouped and gs is not None) else z3.BoolVal((gs is None) == (not grouped))),
                                 ("shape", lib.shape_eq(list(q.fields["_w_size"]), ds))] + [(pre + a, b) for a, b in inv.inv_qbits(q)]
 
-                    rp = lambda m, s, i=dict(inst): replay_qw(m, s, dict(i, entry="affine"))
+                    rp = lambda m, s, accept=(lambda w: True), i=dict(inst): replay_qw(m, s, dict(i, entry="affine"), accept)
                     check_paths(run, E, res, tag, inst, unsup, sup, honoured, rp)
 
 
@@ -448,7 +458,14 @@ def _native_inv(q, t, qname, axis, gs):
     return None
 
 
-def replay_qw(model, seed, inst):
+RAISES = lambda w: w.startswith("raises")
+REJECTS_SUPPORTED = lambda w: w.startswith("ValueError on a supported")
+ACCEPTS_UNSUPPORTED = lambda w: "accepted" in w
+RANK1 = lambda w: w.startswith("rank-1 tensor")
+NOT_HONOURED = lambda w: not (RAISES(w) or REJECTS_SUPPORTED(w) or ACCEPTS_UNSUPPORTED(w) or RANK1(w))
+
+
+def replay_qw(model, seed, inst, accept=lambda w: True):
     import itertools
     import torch
     from optimum.quanto import AbsmaxOptimizer, MaxOptimizer, qtypes, quantize_weight
@@ -485,23 +502,31 @@ def replay_qw(model, seed, inst):
                     okopt = (opt is None) or (bits == 8 and inst.get("optimizer") == "absmax") or (bits < 8 and inst.get("optimizer") == "max")
                     okgs = (gs is None) if bits == 8 else (gs is None or (per % gs == 0 and gs <= per))
                     if okopt and okgs and inst.get("entry") != "affine":
-                        return {"shape": shape, "qtype": qname, "axis": axis, "group_size": gs, "what": "ValueError on a supported configuration"}
+                        _r = {"shape": shape, "qtype": qname, "axis": axis, "group_size": gs, "what": "ValueError on a supported configuration"}
+                        if accept(_r["what"]):
+                            return _r
                 continue
             except Exception as e:
-                return {"shape": shape, "qtype": qname, "axis": axis, "group_size": gs, "optimizer": inst.get("optimizer"),
+                _r = {"shape": shape, "qtype": qname, "axis": axis, "group_size": gs, "optimizer": inst.get("optimizer"),
                         "what": f"raises {type(e).__name__} instead of ValueError", "message": str(e)[:200]}
+                if accept(_r["what"]):
+                    return _r
             bits = qtypes[qname].bits
             if gs is not None and bits < 8 and axis in (0, -1):
                 per = n // shape[axis % rank]
                 if per % gs != 0 or gs > per:
-                    return {"shape": shape, "qtype": qname, "axis": axis, "group_size": gs, "what": "non-divisor group size accepted"}
+                    _r = {"shape": shape, "qtype": qname, "axis": axis, "group_size": gs, "what": "non-divisor group size accepted"}
+                    if accept(_r["what"]):
+                        return _r
             w = _native_inv(q, t, qname, axis, gs)
             if w:
-                return {"shape": shape, "qtype": qname, "axis": axis, "group_size": gs, "what": w}
+                _r = {"shape": shape, "qtype": qname, "axis": axis, "group_size": gs, "what": w}
+                if accept(_r["what"]):
+                    return _r
     return None
 
 
-def replay_sym(model, seed, inst):
+def replay_sym(model, seed, inst, accept=lambda w: True):
     import itertools
     import torch
     from optimum.quanto import qtypes, quantize_activation
@@ -520,11 +545,15 @@ def replay_sym(model, seed, inst):
             except ValueError:
                 continue
             except Exception as e:
-                return {"shape": shape, "scale_shape": ss, "axis": axis, "qtype": qname, "what": f"raises {type(e).__name__} instead of ValueError",
+                _r = {"shape": shape, "scale_shape": ss, "axis": axis, "qtype": qname, "what": f"raises {type(e).__name__} instead of ValueError",
                         "message": str(e)[:200]}
+                if accept(_r["what"]):
+                    return _r
             w = _native_inv(q, t, qname, axis, None)
             if w:
-                return {"shape": shape, "scale_shape": ss, "axis": axis, "qtype": qname, "what": w}
+                _r = {"shape": shape, "scale_shape": ss, "axis": axis, "qtype": qname, "what": w}
+                if accept(_r["what"]):
+                    return _r
     return None
 
 
